@@ -172,6 +172,16 @@ CHECKS.update({
    technique='Coq proof over hand-written symbolic data-flow model; tag-based vm_compute correspondence; generated clip constants with bridges',
    ref='DESIGN.md section 7, C17'),
 })
+CHECKS.update({
+ 'C14': dict(
+   text='Machine-checked proof (Coq) about executable serialisation models over a JSON-like value type: to_dict o from_dict o to_dict = to_dict and behaviour preservation for every fitted state of each univariate family (constant and non-constant), the wrapper (reconstructs as the selected family), '
+        'bivariate copulas and GaussianMultivariate, idempotence under n round trips (induction), type dispatch of the generic entry points (incl. subclass entry points), JSON-safety of univariate/bivariate/Gaussian dicts and non-safety of vine dicts (Python set under D), '
+        'vine/tree/edge round trip with re-linking of previous_tree and parents; refutations with witnesses for the open defects (KDE options, StudentT constant, nested KDE dataset, std underflow, independence dispatch). AST-generated key sets (emitted/consumed keys per class) decided by vm_compute. '
+        'Tie: real round trips (dict, JSON text, pickle/JSON files, repeated 1..3 times) checked inside Coq against the model on exact rationals; bitwise behaviour oracles on the real classes.',
+   note=TB + 'pickle/json are oracles (deep copy incl. instance overrides / identity on JSON-able values); large vine payload arrays enter the model as injective tokens and are compared bitwise in the harness.',
+   technique='Coq induction over round-trip counts on hand-written serialisation models; AST key facts; kernel-checked dict correspondence',
+   ref='DESIGN.md section 7, C14'),
+})
 NOT_YET = {}
 def main():
     props = [json.loads(l) for l in open(os.path.join(V, 'properties.jsonl'))]
